@@ -11,7 +11,11 @@ elab "#audit_module " m:ident : command => do
   for (n, ci) in env.constants.map₁.toList do
     if env.getModuleIdxFor? n == some idx then
       if let .thmInfo _ := ci then
-        if !n.isInternalDetail && !n.isInternal then
+        -- equation lemmas the elaborator derives on demand (`f.eq_def`, `f.eq_1`, …) are not obligations
+        let last := match n with | .str _ s => s | _ => ""
+        let derived := last == "eq_def" || (last.startsWith "eq_" && (last.drop 3).all Char.isDigit) ||
+          last == "congr_simp" || last == "induct" || last == "induct_unfolding" || last == "fun_cases"
+        if !n.isInternalDetail && !n.isInternal && !derived then
           names := names.push n
   let sorted := names.qsort (fun a b => a.toString < b.toString)
   for n in sorted do
